@@ -143,7 +143,7 @@ structure Entry (K : Type) where
 def entryNormQ (sqrt : K → K) (useInf : Bool) (perr w quat : List K) : Entry K :=
   let p := normW sqrt useInf (scale perr w)
   let q := normW sqrt useInf quat
-  if q.1 ≤ p.1 then ⟨p.1, p.2, p.1, q.1⟩ else ⟨q.1, (perr.length : Int) + q.2, p.1, q.1⟩
+  if p.1 ≤ q.1 then ⟨p.1, p.2, p.1, q.1⟩ else ⟨q.1, (perr.length : Int) + q.2, p.1, q.1⟩
 
 /-- what the numerical part of projectQ produced (arbitrary): constraint errors on entry and after every step -/
 structure OracleQ (K : Type) where
